@@ -17,6 +17,7 @@ def scn_cos(ctx):
     resubmit = p.get("resubmit", False)
     ev = ctx.ev
     me = ManualExecutor(ev)
+    me.drain_on_wait = True  # its shutdown(wait=True) runs what is still queued, as a real executor's does
     ex = CancelOnShutdownExecutor(me)
     returned = []  # futures returned by submit()
     raised = []
@@ -54,11 +55,13 @@ def scn_cos(ctx):
                 ev.add("submit_ok", k=k, tag=f.tag)
 
     wait_kw = [None]
+    at_call = {}  # state of every future returned so far, at the moment shutdown() is called
 
     def shutter():
         sched.point()
         w = bool(ctx.choice(2, "wait"))
         wait_kw[0] = w
+        at_call.update((id(f_), f_._state) for f_ in returned)
         ev.add("shutdown_call")
         ex.shutdown(w)
         ev.add("shutdown_ret")
@@ -83,6 +86,18 @@ def scn_cos(ctx):
         was_done_early = any(st == "done" and g is f for st, g in early)
         if was_done_early:
             ctx.check("done-future-not-cancelled", len(calls) == 0, "%s got %d cancel calls" % (f.tag, len(calls)))
+        elif at_call.get(id(f)) in ("PENDING", "RUNNING"):
+            # not yet done when shutdown() was called (nobody but the delegate's own shutdown completes
+            # futures here): the sweep reaches it, and before the delegate is left to run its queue
+            ctx.check("swept-exactly-once", len(before) == 1, "%s (was %s when shutdown() was called, now %s) got %d cancel() calls before shutdown returned" % (
+                f.tag, at_call.get(id(f)), f._state, len(before)))
+            ctx.check("pending-work-cancelled-not-run", not ev.of("delegate_ran_on_shutdown", tag=f.tag),
+                      "%s was left to run during the delegate's shutdown(wait=True) instead of being cancelled" % f.tag)
+            ctx.reach("swept")
+        elif f.done() and not f.cancelled() and ev.of("delegate_ran_on_shutdown", tag=f.tag):
+            # a racing submission accepted after shutdown() had been called and run by the delegate's
+            # shutdown(wait=True) before the sweep could see it: it escaped the sweep
+            ctx.check("swept-exactly-once", len(before) == 1, "%s (submitted during shutdown) ran to completion with %d cancel() calls" % (f.tag, len(before)))
         else:
             ctx.check("swept-exactly-once", len(before) == 1, "%s (state %s) got %d cancel() calls before shutdown returned" % (
                 f.tag, f._state, len(before)))
